@@ -1164,7 +1164,14 @@ func (c *Compiler) compileFunc(node *ast.Func) error {
 	// the basic types of int, string, bool, float, and nil.
 	defaults := make([]any, len(params))
 	defaultsSet := map[int]bool{}
-	for name, expr := range node.Defaults() {
+	// Visit the defaults in parameter order, so that the error reported for a
+	// function with several unsupported defaults is always the same one
+	defaultExprs := node.Defaults()
+	for _, name := range params {
+		expr, ok := defaultExprs[name]
+		if !ok {
+			continue
+		}
 		var value any
 		switch expr := expr.(type) {
 		case *ast.Int:
